@@ -133,6 +133,8 @@ func HarnessC06RulesNarrow(depth int) {
 var verifC06PairExprs = []string{
 	"x[y]", "x.a[y]", "y[x]", "y.a[x]", "x == y", "x < y", "x && y", "contains(x, y)", "contains(y, x)", "startsWith(x, y)",
 	"format(x, y)", "join(x, y)", "join(y, x)", "hashFiles(x, y)", "x.a == y", "x[0] == y", "contains(x.*.a, y)", "x[y.a]", "x.*[y]", "y.*[x]",
+	// the result of an index access is consumed
+	"y[x] == 'a'", "startsWith(y[x], 'a')", "y[x] < 1", "format('{0}', y[x])", "y[x].a", "y[x][0]", "x[y] == 'a'", "contains(y[x], 'a')", "!y[x]", "y[x] && 'a'",
 }
 
 func HarnessC06Pairs() {
